@@ -75,9 +75,26 @@ example : [Ev.aborted false, .aborted true, .attempt].filter (fun e => !e.isAbor
 
 end Pegnet.C10
 
+namespace Pegnet.C10
+open Pegnet
+/-- Regenerated from /repo on every run: the functions of `node` / `node/pegnet` that iterate a result
+    set (`for rows.Next()`) without ever asking `rows.Err()` — where a fetch that fails (lock timeout,
+    I/O error: go-sqlite3 reports the first step's error at `Next`, not at `Query`) ends the loop
+    silently with a truncated result. After the repair 8c83015 they are exactly the five readers only
+    the API calls; every reader on the sync path returns the error, so the model's atomic reads
+    (a read either fails the block or returns everything) describe it. -/
+theorem unchecked_row_loops_are_api_only :
+    Generated.uncheckedRowLoops =
+      ["node/pegnet/addresses.go:SelectAllBalances", "node/pegnet/addresses.go:SelectRichList",
+       "node/pegnet/txhistory_util.go:turnRowsIntoHistoryTransactions", "node/pegnet/winners.go:SelectGraded",
+       "node/pegnet/winners.go:SelectMinerDominance"] := by
+  decide
+end Pegnet.C10
+
 #print axioms Pegnet.C10.propagated_failure_is_transparent
 #print axioms Pegnet.C10.retry_same_outcome
 #print axioms Pegnet.C10.swallow_keeps_partial_effects
 #print axioms Pegnet.C10.swallow_sites_are_the_known_ones
 #print axioms Pegnet.C10.propagated_faults_transparent
 #print axioms Pegnet.C10.averages_idempotent
+#print axioms Pegnet.C10.unchecked_row_loops_are_api_only
